@@ -333,7 +333,24 @@ def monitor_c09(ctx):
         srcs.append([src, parts])
     b = _run('c09_chain', 'c09_chain', [{'srcs': srcs[i:i + 100]} for i in range(0, len(srcs), 100)],
              'chains of 2..5 and / or over falsy and truthy constants of every type, flat and grouped: the value is the deciding operand itself')
-    return _merge('c09', [a, b])
+    HOF = []
+    for nm in ('lower', 'len', 'get', 'min', 'max', 'abs', 'str', 'upper', 'keys', 'sum', 'round', 'int', 'index_of', 'pretty', 'join'):
+        HOF += [[f'map([10, 20, 30], x => [x, {nm}(7)])', [nm], '[[10, 1], [20, 2], [30, 3]]'],
+                [f'map([1, 2], x => map([5, 6], y => {nm}(0)))', [nm], '[[1, 2], [3, 4]]'],
+                [f'filter([10, 20, 30, 40], x => {nm}(1) > 2)', [nm], '[30, 40]'],
+                [f'reduce([1, 2, 3, 4], (a, x) => {nm}(a))', [nm], '3'],
+                [f'map([1, 2, 3], x => (x if {nm}(0) > 1 else 0))', [nm], '[0, 2, 3]'],
+                [f'[sorted([3, 1, 2], x => 0 - {nm}(x))[0]]', [nm], '[2]'],
+                [f'f = x => [x, {nm}(7)]; map([10, 20], f)', [nm], '[[10, 1], [20, 2]]']]
+    HOF += [['seen = []; add = v => push(seen, v); map([10, 20, 30], x => add(x) or len(seen))', [], '[1, 2, 3]'],
+            ['seen = []; add = v => push(seen, v); map([10, 20, 30], x => [add(x), seen[0], len(seen)][2])', [], '[1, 2, 3]'],
+            ['c = {"k": 0}; bump = v => __setitem__(c, "k", c["k"] + 1); map([1, 2, 3], x => [bump(x), get(c, "k")][1])', [], '[1, 2, 3]'],
+            ['q = [1, 2, 3]; map([0, 0, 0], x => pop(q))', [], '[3, 2, 1]'], ['q = [1, 2, 3]; take = v => pop(q); map([0, 0, 0], x => take(0) + len(q))', [], '[5, 3, 1]'],
+            ['n = [0]; inc = v => n.push(v); filter([1, 2, 3, 4], x => [inc(x), len(n) > 3][1])', [], '[3, 4]']]
+    c = _run('c09_hof', 'c09_hof', [{'cases': HOF[i:i + 20]} for i in range(0, len(HOF), 20)],
+             'callbacks of map / filter / sorted / reduce whose bodies hold parameter-independent but state-dependent sub-expressions (helpers '
+             'with state, builtin names bound by the host to a counter): evaluated once per application')
+    return _merge('c09', [a, b, c])
 
 
 # ------------------------------------------------------------------ C10
@@ -470,8 +487,14 @@ def monitor_c13(ctx):
     bigd = {'$': 'bigdict', 'v': 10050}
     bigsets = [[big], [big, ','], [',', big], [big, 0], [big, fn('ident')], [bigd], [bigd, 'k5'], [big, 5, 7], [big, None, True]]
     pays += [{'names': ch, 'argsets': bigsets} for ch in chunks]
-    return _run('c13', 'c13', pays, 'every non-mutator of FUNCTIONS called directly with lists / dicts / nested / host-float / tuple / str arguments, '
-                'key functions and reverse flags: deep type-and-value snapshot of every argument before vs after')
+    a = _run('c13', 'c13', pays, 'every non-mutator of FUNCTIONS called directly with lists / dicts / nested / host-float / tuple / str arguments, '
+             'key functions and reverse flags: deep type-and-value snapshot of every argument before vs after')
+    names = list(sqimpl.load().functions.FUNCTIONS.keys())
+    lines = [c[0] for c in gens2.builtin_cases(ctx['seed'], names, 0) if c[1].startswith('ident = v => v; r = ')]
+    b = _run('c13_prog', 'c13_prog', [{'lines': lines[i:i + 60]} for i in range(0, len(lines), 60)],
+             'whole programs: a non-mutating builtin applied to a host object that reaches it through another call (reduce / apply / max / get / rand / '
+             'or / filter / map / a lambda handing its argument through): snapshot of the host object before vs after')
+    return _merge('c13', [a, b])
 
 
 # ------------------------------------------------------------------ C14
